@@ -100,6 +100,12 @@ pub(crate) fn validate(input: &DataType) -> Result<()> {
         DataType::Enum(e) => {
             for v in &e.variants {
                 validate_variant_fields(v, attrs, &type_paths, &mut errors);
+
+                for f in &v.fields {
+                    validate_dedicated_member_attrs(&f.attrs.attrs, |x| x.attr.container_ty.as_ref(), None, f.member.span(), &type_paths, &mut errors);
+                    validate_dedicated_member_attrs(&f.attrs.ghost_attrs, |x| x.attr.container_ty.as_ref(), None, f.member.span(), &type_paths, &mut errors);
+                    validate_member_error_instrs(input, &f.attrs, &mut errors);
+                }
             }
         },
     }
